@@ -75,6 +75,7 @@ type Ctx struct {
 	heapBound map[string]string
 	oldSame  map[string]string // havocked heap -> entry heap it agrees with on pre-existing objects
 	constSort map[string]string
+	heapPrev map[string]heapPrevInfo // call-havocked heap -> heap before the call
 	preludeLen int
 	declared map[string]bool
 	cmds     []string
@@ -96,7 +97,7 @@ type Ctx struct {
 }
 
 func newCtx(prog *Program, mode Mode, pkg *types.Package, fname string) *Ctx {
-	c := &Ctx{prog: prog, mode: mode, pkg: pkg, declared: map[string]bool{}, tags: map[string]int{}, strLits: map[string]string{}, specDone: map[string]*specInst{}, fname: fname, assumed: map[string]bool{}, lemmasUsed: map[string]bool{}, globals: map[string]bool{}, heapSorts: map[string]string{}, defs: map[string]string{}, heapDefs: map[string]heapDef{}, arrDefs: map[string]arrDef{}, heapBound: map[string]string{}, oldSame: map[string]string{}, constSort: map[string]string{}}
+	c := &Ctx{prog: prog, mode: mode, pkg: pkg, declared: map[string]bool{}, tags: map[string]int{}, strLits: map[string]string{}, specDone: map[string]*specInst{}, fname: fname, assumed: map[string]bool{}, lemmasUsed: map[string]bool{}, globals: map[string]bool{}, heapSorts: map[string]string{}, defs: map[string]string{}, heapDefs: map[string]heapDef{}, arrDefs: map[string]arrDef{}, heapBound: map[string]string{}, oldSame: map[string]string{}, constSort: map[string]string{}, heapPrev: map[string]heapPrevInfo{}}
 	c.prelude()
 	return c
 }
@@ -889,4 +890,10 @@ func heapDeclaredBefore(ax string, cmds, decls []string) bool {
 		}
 	}
 	return false
+}
+
+type heapPrevInfo struct {
+	prev     string
+	preAlloc string
+	reach    string
 }
